@@ -145,6 +145,10 @@ def plan(tier, seed):
         jobs.append({'space': 'S6c', 'period': p, 'weight': 2 ** p * 3000})
     for i in range(16):
         jobs.append({'space': 'S8', 'shard': i, 'of': 16, 'weight': 4000})
+    for i in range(len(S9_PAIRS)):
+        for first in 'AB':
+            jobs.append({'space': 'S9', 'pair': i, 'first': first,
+                         'weight': 6000})
     for n in range(1, b.get('s7', 7) + 1):
         for fam in range(len(LEAF_FAMILIES)):
             jobs.append({'space': 'S7', 'len': n, 'family': fam,
@@ -249,6 +253,52 @@ def run_S1(cx, job):
     for tokens in core.shard_iter(iter(sents), job['shard'], job['of']):
         text, _, _ = _sentence_case(cx, 'S1', tokens)
         cx.acc.sample('S1', text)
+
+
+# S9: two threads parse and decide DIFFERENT rules at the same time (the parser
+# is module-level code shared by every thread of a service)
+S9_PAIRS = [
+    ('role:a and role:b', 'role:a or not role:c'),
+    ('not (role:a or role:b)', '(role:a and (role:b or role:c))'),
+    ('role:a or role:b and not role:c', 'not not role:a'),
+    ([['role:a', 'role:b'], ['role:c']], 'role:a AND (role:b OR role:c)'),
+]
+
+
+def run_S9(cx, job):
+    from mc import pairs
+    ta, tb = S9_PAIRS[job['pair']]
+    roles = {'A': ['a', 'c'], 'B': ['b']}
+    texts = {'A': ta, 'B': tb}
+    P, parse = cx.policy, cx.parse_rule
+
+    def decide_all(text, held):
+        # parse, install on an enforcer of the thread's own, decide under
+        # the thread's credentials and under none
+        enf = world.bare_enforcer()
+        enf.set_rules(P.Rules.from_dict({'p': text}), use_conf=False)
+        tree = parse(text)
+        return (bool(enf.enforce('p', {}, {'roles': held})),
+                bool(enf.enforce('p', {}, {'roles': []})),
+                bool(tree({}, {'roles': held}, enf)), str(tree))
+    expected = {n: decide_all(texts[n], roles[n]) for n in 'AB'}
+    # the reference model agrees with the sequential outcome (C01 proper)
+    for n in 'AB':
+        if not isinstance(texts[n], str):
+            continue
+        ast = lang.parse(lang.lex(texts[n]))
+        if expected[n][0] != lang.evaluate(
+                ast, lambda leaf: leaf[5:] in roles[n]):
+            raise core.HarnessError('S9 sequential outcome disagrees')
+
+    def make_bodies():
+        return {n: (lambda n=n: decide_all(texts[n], roles[n])) for n in 'AB'}
+    n_ex = pairs.explore(cx.acc, 'S9', 'pair%d' % job['pair'], make_bodies,
+                         expected, 1 if job.get('tier') == 'quick' else 2,
+                         lambda n: 'rule %r' % (texts[n],),
+                         firsts=(job['first'],))
+    cx.acc.add('s9_executions', n_ex)
+    cx.acc.sample('S9', {'rules': [str(ta), str(tb)]})
 
 
 # S8: rules are parsed one after the other by one process - each on its own.
